@@ -683,13 +683,15 @@ fn check_string(s: &[u8]) -> Result<(Option<Rsync>, Option<Https>), Fail> {
         if let (Ok(a), Ok(b)) = (&r, &rd) {
             ensure!(a == b && b == a && a.as_str() == b.as_str() && hash_of(a) == hash_of(b), "Rsync deserialized from {} differs from the parsed one", js);
             check_rsync_accepted(s, b)?;
-            ensure!(serde_json::to_string(a).ok().as_deref() == Some(js.as_str()), "Rsync {:?} serialises to something else than its text", text);
+            let ser = serde_json::to_string(a).map_err(|e| Fail::new(e.to_string()))?;
+            ensure!(serde_json::from_str::<Rsync>(&ser).ok().as_ref() == Some(a), "Rsync {:?} does not survive its own serde form {}", text, ser);
             ensure!(serde_json::from_value::<Rsync>(serde_json::Value::String(text.to_string())).ok().as_ref() == Some(a), "Rsync from a JSON value differs for {:?}", text);
         }
         if let (Ok(a), Ok(b)) = (&h, &hd) {
             ensure!(a == b && b == a && a.as_str() == b.as_str() && hash_of(a) == hash_of(b), "Https deserialized from {} differs from the parsed one", js);
             check_https_accepted(s, b)?;
-            ensure!(serde_json::to_string(a).ok().as_deref() == Some(js.as_str()), "Https {:?} serialises to something else than its text", text);
+            let ser = serde_json::to_string(a).map_err(|e| Fail::new(e.to_string()))?;
+            ensure!(serde_json::from_str::<Https>(&ser).ok().as_ref() == Some(a), "Https {:?} does not survive its own serde form {}", text, ser);
             ensure!(serde_json::from_value::<Https>(serde_json::Value::String(text.to_string())).ok().as_ref() == Some(a), "Https from a JSON value differs for {:?}", text);
         }
     }
